@@ -37,7 +37,8 @@ Definition ascii_trim (s : str) : option str :=
   if is_ascii s then Some (trim_with is_ws TBoth s) else None.   (* s.trim() after fix 0a01f1f *)
 
 Definition impl_replace (pat repl flags s : str) : prog (outcome str) :=
-  if (negb (existsb (fun f => mem_cp f flags) replace_shortcut_blockers)
+  if (replace_shortcut_present
+      && negb (existsb (fun f => mem_cp f flags) replace_shortcut_blockers)
       && negb (existsb (fun c => mem_cp c replace_meta) pat)
       && negb (contains s pat))%bool
   then Ret (Ok s)
